@@ -248,6 +248,7 @@ class C20(Check):
         n_cmds = len(t.transmissions)
         animated_native = eff.lower() == "anim" and bool(ctx.get("animated", False))
         exp = 2 if eff.lower() == "lines" else 1
+        eng.reachable()
         eng.claim("render uses the per-call method if given, else the effective one", n_cmds == exp)
 
 
